@@ -592,9 +592,242 @@ def simultaneous_update(ctx):
         raise AnalysisError("no update_greens_function could be analysed (the incremental Green's-function update vanished)")
 
 
+def cpmc_formula_siblings(ctx):
+    """SIB-3: uhf_cpmc and ghf_cpmc implement one two-index Wick ratio and one pair of rank-one Green's-function
+    corrections.  Each method is expanded, on its value graph, into a polynomial over role atoms -- the update constants
+    c0, c1, 1/ratio, the entries g(a,b), the columns col(a) and the shifted rows sg(a) of the Green's function with
+    a, b in {i, j} -- where a UHF read green[s, a, b] takes its roles from the sites and must address the spin block of one
+    of them, and a GHF read green[X, Y] takes them from spin-orbital indices site + (spin == 1) * norb whose site and spin
+    come from the same index pair.  Obligations: every read has a role (a GHF index built from the site of one pair and
+    the spin of the other has none); the GHF polynomial has no spin gate; in the UHF polynomial every monomial with an
+    off-diagonal entry g(i,j) / g(j,i) carries the gate (spin_i == spin_j) (the blocks of different spins do not couple);
+    and with the gate set to 1 the two polynomials are equal.  Decides agreement of the two siblings, not the formula."""
+    from fractions import Fraction
+    p = ctx.p
+    polys = {}
+    notes = {}
+    for cls in ("uhf_cpmc", "ghf_cpmc"):
+        ci = p.classes.get("wavefunctions." + cls)
+        for meth in ("calc_overlap_ratio", "update_greens_function"):
+            fi = ci.methods.get(meth) if ci else None
+            if fi is None:
+                notes[(cls, meth)] = "method not defined in the class"
+                continue
+            ev = Evaluator(p)
+            fr = ev.eval_function(fi)
+            res = strip_wrappers(ev.result(fr))
+            prm = [x.name for x in fi.pos_params() if x.name != "self"]
+            if len(prm) < 3:
+                notes[(cls, meth)] = "unexpected signature"
+                continue
+            G0, IDX, CST = sym(prm[0]), sym(prm[-2]), sym(prm[-1])
+            RAT = sym(prm[1]) if meth == "update_greens_function" and len(prm) >= 4 else None
+            pair = {0: (getitem(getitem(IDX, const(0)), const(0)), getitem(getitem(IDX, const(0)), const(1)), "i"),
+                    1: (getitem(getitem(IDX, const(1)), const(0)), getitem(getitem(IDX, const(1)), const(1)), "j")}
+            spin_of = {"i": pair[0][0], "j": pair[1][0]}
+            problems: List[str] = []
+
+            def site_role(x):
+                x = strip_wrappers(x)
+                for k in (0, 1):
+                    if x is pair[k][1]:
+                        return pair[k][2]
+                return None
+
+            def so_role(x):
+                """role of a GHF spin-orbital index  site + (spin == 1) * norb"""
+                x = strip_wrappers(x)
+                mb = m_binop(x, "+")
+                if mb is None:
+                    return None
+                for a_, b_ in ((mb[0], mb[1]), (mb[1], mb[0])):
+                    r_ = site_role(a_)
+                    mm = m_binop(strip_wrappers(b_), "*")
+                    if r_ is None or mm is None:
+                        continue
+                    for c_, n_ in ((mm[0], mm[1]), (mm[1], mm[0])):
+                        c_ = strip_wrappers(c_)
+                        if c_.op == "cmp" and c_.args[0] == "==" and len(c_.args) == 3:
+                            sp = [y for y in (strip_wrappers(c_.args[1]), strip_wrappers(c_.args[2])) if y.op != "const"]
+                            if len(sp) == 1:
+                                if sp[0] is spin_of[r_]:
+                                    return r_
+                                problems.append(f"spin-orbital index {show(x, maxdepth=3)[:70]} combines the site of pair "
+                                                f"'{r_}' with the spin of the other pair")
+                                return "?"
+                return None
+
+            def index_chain(t):
+                ix = []
+                while t.op == "getitem":
+                    ix = (list(t.args[1].args) if t.args[1].op == "tuple" else [t.args[1]]) + ix
+                    t = strip_wrappers(t.args[0])
+                return t, ix
+
+            def read_atom(t):
+                """atom for a read of the Green's function argument, None when t is not one"""
+                base, ix = index_chain(t)
+                if base is not G0 or not ix:
+                    return None
+                if cls == "uhf_cpmc":
+                    if len(ix) != 3:
+                        return None
+                    s_, a_, b_ = (strip_wrappers(y) for y in ix)
+                    ra = site_role(a_) if a_.op != "slice" else ":"
+                    rb = site_role(b_) if b_.op != "slice" else ":"
+                    if ra is None or rb is None:
+                        return None
+                    owners = [r_ for r_ in (ra, rb) if r_ != ":"]
+                    if not any(s_ is spin_of[r_] for r_ in owners):
+                        problems.append(f"{show(t, maxdepth=3)[:60]} addresses a spin block that belongs to neither of its sites")
+                    return f"g({ra},{rb})" if ":" not in (ra, rb) else (f"col({rb})" if ra == ":" else f"row({ra})")
+                if len(ix) == 2:
+                    a_, b_ = (strip_wrappers(y) for y in ix)
+                    ra = so_role(a_) if a_.op != "slice" else ":"
+                    rb = so_role(b_) if b_.op != "slice" else ":"
+                    if ra is None or rb is None:
+                        return None
+                    return f"g({ra},{rb})" if ":" not in (ra, rb) else (f"col({rb})" if ra == ":" else f"row({ra})")
+                if len(ix) == 1:
+                    ra = so_role(ix[0])
+                    return f"row({ra})" if ra else None
+                return None
+
+            def atom(t):
+                t = strip_wrappers(t)
+                for k in (0, 1):
+                    if t is getitem(CST, const(k)):
+                        return f"c{k}"
+                if RAT is not None and t is RAT:
+                    return "ratio"
+                if t.op == "cmp" and t.args[0] == "==" and len(t.args) == 3 and \
+                        {strip_wrappers(t.args[1]).uid, strip_wrappers(t.args[2]).uid} == {spin_of["i"].uid, spin_of["j"].uid}:
+                    return "same"
+                # shifted row  G[a].at[a].add(-1)  (UHF: G[s, a].at[a].add(-1))
+                if t.op == "call" and t.args[0].op == "attr" and t.args[0].args[1] == "add" and len(t.args) == 2 and \
+                        is_const(strip_wrappers(t.args[1]), -1):
+                    tg = t.args[0].args[0]
+                    if tg.op == "getitem" and tg.args[0].op == "attr" and tg.args[0].args[1] == "at":
+                        row = read_atom(strip_wrappers(tg.args[0].args[0]))
+                        at_ = strip_wrappers(tg.args[1])
+                        r_at = site_role(at_) if cls == "uhf_cpmc" else so_role(at_)
+                        if row and row.startswith("row(") and r_at and row == f"row({r_at})":
+                            return f"sg({r_at})"
+                        if row and row.startswith("row("):
+                            problems.append(f"{show(t, maxdepth=3)[:60]}: the row of one index is shifted at the position of the other")
+                            return f"sg(?)"
+                ra = read_atom(t)
+                if ra is not None:
+                    return ra
+                return None
+
+            unknown: List[str] = []
+
+            def poly(t):
+                t = strip_wrappers(t)
+                if t.op == "const" and isinstance(t.args[0], (int, float)) and not isinstance(t.args[0], bool):
+                    return {(): Fraction(t.args[0]).limit_denominator(10 ** 6)} if t.args[0] != 0 else {}
+                a_ = atom(t)
+                if a_ is not None:
+                    return {(a_,): Fraction(1)}
+                if t.op == "unop" and t.args[0] == "-":
+                    return {k: -v for k, v in poly(t.args[1]).items()}
+                if t.op == "binop" and t.args[0] in ("+", "-"):
+                    l_, r_ = poly(t.args[1]), poly(t.args[2])
+                    out = dict(l_)
+                    for k, v in r_.items():
+                        out[k] = out.get(k, 0) + (v if t.args[0] == "+" else -v)
+                    return {k: v for k, v in out.items() if v != 0}
+                if (t.op == "binop" and t.args[0] == "*") or (t.op == "call" and (array_fn(t) or "") == "outer"
+                                                              and len(call_parts(t)[1]) == 2):
+                    ops_ = (t.args[1], t.args[2]) if t.op == "binop" else tuple(call_parts(t)[1])
+                    l_, r_ = poly(ops_[0]), poly(ops_[1])
+                    out = {}
+                    for k1, v1 in l_.items():
+                        for k2, v2 in r_.items():
+                            k = tuple(sorted(k1 + k2))
+                            out[k] = out.get(k, 0) + v1 * v2
+                    return {k: v for k, v in out.items() if v != 0}
+                if t.op == "binop" and t.args[0] == "/":
+                    d_ = atom(t.args[2])
+                    if d_ is not None:
+                        return {tuple(sorted(k + (f"1/{d_}",))): v for k, v in poly(t.args[1]).items()}
+                unknown.append(show(t, maxdepth=2)[:50])
+                return {(f"?{t.uid}",): Fraction(1)}
+
+            if meth == "calc_overlap_ratio":
+                P = poly(res)
+            else:
+                # the corrections: everything added to the argument, whether block by block or in one sum
+                P = {}
+                cur = res
+                ok_chain = True
+                while cur is not G0:
+                    t_ = strip_wrappers(cur)
+                    if t_.op == "call" and t_.args[0].op == "attr" and t_.args[0].args[1] == "add" and len(t_.args) == 2 and \
+                            t_.args[0].args[0].op == "getitem" and t_.args[0].args[0].args[0].op == "attr" and \
+                            t_.args[0].args[0].args[0].args[1] == "at":
+                        val, cur = t_.args[1], strip_wrappers(t_.args[0].args[0].args[0].args[0])
+                    elif t_.op == "binop" and t_.args[0] == "+":
+                        val, cur = t_.args[2], strip_wrappers(t_.args[1])
+                    else:
+                        ok_chain = False
+                        break
+                    for k, v in poly(val).items():
+                        P[k] = P.get(k, 0) + v
+                if not ok_chain:
+                    notes[(cls, meth)] = f"result is not a chain of additions to the argument ({show(res, maxdepth=2)[:50]})"
+                    continue
+                P = {k: v for k, v in P.items() if v != 0}
+            if unknown:
+                notes[(cls, meth)] = f"sub-expression(s) outside the role vocabulary: {unknown[:2]}"
+                continue
+            polys[(cls, meth)] = (P, problems, fi)
+    for (cls, meth), why in sorted(notes.items()):
+        ctx.rep.note(f"{cls}.{meth}: {why}; the UHF / GHF formula comparison is not applied to it")
+
+    def fmt(P):
+        return " + ".join(f"{v}*{'*'.join(k) or '1'}" for k, v in sorted(P.items()))[:300]
+    for meth in ("calc_overlap_ratio", "update_greens_function"):
+        for cls in ("uhf_cpmc", "ghf_cpmc"):
+            if (cls, meth) in polys:
+                P, problems, fi = polys[(cls, meth)]
+                ctx.ob("SIB-3", f"{cls}.{meth}: every read of the Green's function addresses the block / spin-orbital of its "
+                       f"own index pair", not problems, "; ".join(sorted(set(problems))[:2]) or f"{len(P)} monomials", fi)
+        if ("ghf_cpmc", meth) in polys:
+            P, _, fi = polys[("ghf_cpmc", meth)]
+            gated = [k for k in P if "same" in k]
+            ctx.ob("SIB-3", f"ghf_cpmc.{meth}: no spin gate (the blocks of a GHF Green's function couple)", not gated,
+                   f"{len(gated)} monomial(s) carry (spin_i == spin_j)" if gated else f"{len(P)} monomials", fi)
+        if ("uhf_cpmc", meth) in polys:
+            P, _, fi = polys[("uhf_cpmc", meth)]
+            ungated = [k for k in P if any(a_ in ("g(i,j)", "g(j,i)") for a_ in k) and "same" not in k]
+            ctx.ob("SIB-3", f"uhf_cpmc.{meth}: off-diagonal entries only enter for equal spins", not ungated,
+                   f"monomial {'*'.join(ungated[0])} has no (spin_i == spin_j) factor" if ungated else f"{len(P)} monomials", fi)
+        if ("uhf_cpmc", meth) in polys and ("ghf_cpmc", meth) in polys:
+            Pu, prob_u, fu = polys[("uhf_cpmc", meth)]
+            Pg, prob_g, _ = polys[("ghf_cpmc", meth)]
+            if prob_u or prob_g:
+                continue
+
+            def ungate(P):
+                out = {}
+                for k, v in P.items():
+                    k2 = tuple(a_ for a_ in k if a_ != "same")
+                    out[k2] = out.get(k2, 0) + v
+                return {k: v for k, v in out.items() if v != 0}
+            a_, b_ = ungate(Pu), ungate(Pg)
+            diff = sorted(set(a_.items()) ^ set(b_.items()))
+            ctx.ob("SIB-3", f"uhf_cpmc / ghf_cpmc: {meth} is the same polynomial in the update constants and the entries, "
+                   f"columns and shifted rows of the Green's function", a_ == b_,
+                   f"{len(a_)} monomials" if a_ == b_ else
+                   f"differ in {['*'.join(k) + ':' + str(v) for k, v in diff][:4]}", fu)
+
+
 def run(ctx):
     uniform_variate(ctx)
     simultaneous_update(ctx)
+    cpmc_formula_siblings(ctx)
     p = ctx.p
     pairs = [("propagator_cpmc", "propagator_cpmc_slow"), ("propagator_cpmc_nn", "propagator_cpmc_nn_slow")]
     n_blocks = 0
